@@ -415,6 +415,113 @@ func runGet(c *Case, out *Out) {
 }
 
 // ---------------------------------------------------------------------------
+// part 3b: Hoffman.Get (BEP 17) against scripted servers.  The seed is asked
+// for ?piece=N&ranges=a-b; this client sends b = a+length and accepts a body
+// of exactly length bytes.
+
+func hoffmanClass(cls string, psize int64, torrent []byte) http.HandlerFunc {
+	return func(w http.ResponseWriter, r *http.Request) {
+		var piece, a, b int64
+		fmt.Sscanf(r.URL.Query().Get("piece"), "%d", &piece)
+		fmt.Sscanf(r.URL.Query().Get("ranges"), "%d-%d", &a, &b)
+		start := piece*psize + a
+		n := b - a // what this client means
+		if start < 0 || start >= int64(len(torrent)) {
+			w.WriteHeader(404)
+			return
+		}
+		avail := torrent[start:]
+		take := func(k int64) []byte {
+			if k > int64(len(avail)) {
+				k = int64(len(avail))
+			}
+			return avail[:k]
+		}
+		hj := func(raw string, body []byte) {
+			conn, _, _ := w.(http.Hijacker).Hijack()
+			conn.Write([]byte(raw))
+			conn.Write(body)
+			conn.Close()
+		}
+		switch cls {
+		case "h-exact":
+			w.Header().Set("Content-Length", fmt.Sprint(n))
+			w.Write(take(n))
+		case "h-inclusive": // a BEP 17 server reading the range as inclusive
+			w.Header().Set("Content-Length", fmt.Sprint(n+1))
+			w.Write(take(n + 1))
+		case "h-nolength-excess":
+			hj("HTTP/1.1 200 OK\r\nConnection: close\r\n\r\n", append(append([]byte{}, take(n)...), bytes.Repeat([]byte("Z"), 40000)...))
+		case "h-nolength-short":
+			hj("HTTP/1.1 200 OK\r\nConnection: close\r\n\r\n", take(n/2))
+		case "h-short-length":
+			w.Header().Set("Content-Length", fmt.Sprint(n/2))
+			w.Write(take(n / 2))
+		case "h-truncated": // announces n, sends half, closes
+			hj(fmt.Sprintf("HTTP/1.1 200 OK\r\nContent-Length: %d\r\nConnection: close\r\n\r\n", n), take(n/2))
+		case "h-overlong": // announces n, sends more
+			hj(fmt.Sprintf("HTTP/1.1 200 OK\r\nContent-Length: %d\r\nConnection: close\r\n\r\n", n), append(append([]byte{}, take(n)...), bytes.Repeat([]byte("Z"), 9000)...))
+		case "h-206":
+			w.Header().Set("Content-Length", fmt.Sprint(n))
+			w.WriteHeader(206)
+			w.Write(take(n))
+		case "h-503":
+			w.WriteHeader(503)
+			w.Write(take(n))
+		case "h-bad-length":
+			hj("HTTP/1.1 200 OK\r\nContent-Length: banana\r\nConnection: close\r\n\r\n", take(n))
+		case "h-reset":
+			hj("", nil)
+		default:
+			w.WriteHeader(500)
+		}
+	}
+}
+
+func runHGet(c *Case, out *Out) {
+	seed := uint64(c.ID) + 199
+	const psize = 65536
+	torrent := content.Range(seed, 0, int(c.FLen))
+	ln, err := net.Listen("tcp4", "127.0.0.1:0")
+	if err != nil {
+		out.Note = err.Error()
+		return
+	}
+	srv := &http.Server{Handler: hoffmanClass(c.Server, psize, torrent)}
+	go srv.Serve(ln)
+	defer srv.Close()
+	ws, ok := webseed.New("http://"+ln.Addr().String()+"/seed.php", false).(*webseed.Hoffman)
+	if !ok {
+		out.Note = "webseed.New did not return a Hoffman seed"
+		return
+	}
+	var rec recorder
+	ctx, cancel := context.WithTimeout(context.Background(), 10*time.Second)
+	defer cancel()
+	index, offset := uint32(c.Off/psize), uint32(c.Off%psize)
+	var n int64
+	func() {
+		defer func() {
+			if p := recover(); p != nil {
+				out.viol("get-panic", fmt.Sprintf("Hoffman.Get panicked: %v (server %s)", p, c.Server))
+			}
+		}()
+		n, err = ws.Get(ctx, "", []byte("01234567890123456789"), index, offset, uint32(c.Len), &rec)
+	}()
+	desc := fmt.Sprintf("Hoffman seed, server behaviour %s, torrent of %d bytes, piece %d range [%d, +%d)", c.Server, c.FLen, index, offset, c.Len)
+	got := rec.Bytes()
+	out.Observed = fmt.Sprintf("n=%d err=%v delivered=%d", n, err, len(got))
+	if int64(len(got)) > c.Len {
+		out.viol("get-beyond-range", fmt.Sprintf("%d bytes were delivered to the writer for a range of %d (%s)", len(got), c.Len, desc))
+	} else if c.Off+int64(len(got)) > c.FLen || !bytes.Equal(got, torrent[c.Off:c.Off+int64(len(got))]) {
+		out.viol("get-wrong-bytes", fmt.Sprintf("the %d bytes delivered are not the first bytes of the requested range (%s)", len(got), desc))
+	}
+	if ws.Count() != 0 {
+		out.viol("get-count", "the web seed's count of running fetches is not released ("+desc+")")
+	}
+}
+
+// ---------------------------------------------------------------------------
 // part 4: full path on a running torrent
 
 type fileServer struct {
@@ -635,6 +742,8 @@ func Handle(in []byte) any {
 		runFiles(&c, out)
 	case "writer":
 		runWriter(&c, out)
+	case "hget":
+		runHGet(&c, out)
 	case "get":
 		runGet(&c, out)
 	case "full":
